@@ -35,6 +35,7 @@ impl Out {
 #[derive(Default)]
 pub struct Session {
     pub crdt: engines::crdt::CrdtSession,
+    #[cfg(feature = "e_sync")]
     pub sync: engines::sync::SyncSession,
 }
 
